@@ -19,9 +19,10 @@ RULE = ("case = (generated parent design with child slots at depth 1-2, a family
         "from the top's metadata containers. non-trivial = history with >=2 replacements one of which hits depth 2, and "
         "a removed class carried constraints, constants, an update_once block or grandchildren; distinct by case")
 ASSUMPTIONS = [
-  "two families: pure RTL designs from the E1 grammar, and a CL family (slots filled with method-only stores with M "
+  "two families: RTL designs from the E1 grammar (Interface bundles and lists of components included: a replaced slot may be a list element, "
+  "the replacement carries the same interface instances), and a CL family (slots filled with method-only stores with M "
   "constraints, components with internal caller/callee method nets, block-less structural wrappers that constrain their "
-  "children's blocks); Interface objects are not generated (DESIGN.md row 8)",
+  "children's blocks)",
   "'built from scratch' = the same IR with the slot's class substituted (per-instance specialisation of the parent class), "
   "rendered and elaborated normally",
 ]
